@@ -20,6 +20,28 @@ _SLASH_LOOP = (
     "                            have_match_for.update(rule.methods)\n"
 )
 
+_ADMIT_IF = (
+    "                        if websocket == rule.websocket and (\n"
+    "                            rule.methods is None or method in rule.methods\n"
+    "                        ):\n"
+)
+_FIRST_PASS = (
+    "        try:\n"
+    "            rv = _match(self._root, [domain, *path.split(\"/\")], [])\n"
+    "        except SlashRequired:\n"
+    "            raise RequestPath(f\"{path}/\") from None\n"
+    "\n"
+    "        if self.merge_slashes and rv is None:\n"
+)
+_SECOND_PASS = (
+    "            path = re.sub(\"/{2,}?\", \"/\", path)\n"
+    "            try:\n"
+    "                rv = _match(self._root, [domain, *path.split(\"/\")], [])\n"
+    "            except SlashRequired:\n"
+    "                raise RequestPath(f\"{path}/\") from None\n"
+)
+_DEF_MATCH = "        def _match(\n            state: State, parts: list[str], values: list[str]\n        )"
+
 MUTANTS = [
     # R12.1 ----------------------------------------------------------------
     {"name": "redirect-path-keeps-leading-slashes", "expect": "R12.1", "edits": [(M, _PATH_JOIN, '        path = "/".join((self.script_name.strip("/"), path_info))')]},
@@ -52,6 +74,49 @@ MUTANTS = [
     {"name": "slash-proposal-ignores-websocket", "expect": "R12.5", "edits": [(T, "                        if websocket == rule.websocket and (\n                            rule.methods is None or method in rule.methods\n                        ):", "                        if rule.methods is None or method in rule.methods:")]},
     {"name": "slash-proposal-method-test-dropped", "expect": "R12.5", "edits": [(T, "                        if websocket == rule.websocket and (\n                            rule.methods is None or method in rule.methods\n                        ):", "                        if websocket == rule.websocket:")]},
     {"name": "merged-slash-redirect-without-a-match", "expect": "R12.5", "edits": [(T, "            if rv is None or rv[0].merge_slashes is False:", "            if rv is not None and rv[0].merge_slashes is False:")]},
+    {"name": "slash-proposal-admission-flag-not-consulted", "expect": "R12.5", "edits": [(T, _SLASH_LOOP,
+        "                        method_ok = rule.methods is None or method in rule.methods\n"
+        "                        if websocket == rule.websocket:\n"
+        "                            if rule.strict_slashes:\n"
+        "                                raise SlashRequired()\n"
+        "                            if method_ok:\n"
+        "                                return rule, values\n")]},
+    {"name": "slash-proposal-admission-flag-of-the-wrong-polarity", "expect": "R12.5", "edits": [(T, _SLASH_LOOP,
+        "                        refused = rule.methods is not None and method not in rule.methods\n"
+        "                        if websocket == rule.websocket and refused:\n"
+        "                            if rule.strict_slashes:\n"
+        "                                raise SlashRequired()\n"
+        "                            return rule, values\n")]},
+    # R12.6 ----------------------------------------------------------------
+    {"name": "first-pass-slash-redirect-targets-the-merged-path", "expect": "R12.6", "edits": [(T, _FIRST_PASS,
+        "        merged = re.sub(\"/{2,}?\", \"/\", path)\n"
+        "        try:\n"
+        "            rv = _match(self._root, [domain, *path.split(\"/\")], [])\n"
+        "        except SlashRequired:\n"
+        "            raise RequestPath(f\"{merged}/\") from None\n"
+        "\n"
+        "        if self.merge_slashes and rv is None:\n")]},
+    {"name": "both-passes-in-one-try-redirect-to-the-merged-path", "expect": "R12.6", "edits": [
+        (T, _FIRST_PASS,
+        "        merged = re.sub(\"/{2,}?\", \"/\", path) if self.merge_slashes else path\n"
+        "        try:\n"
+        "            rv = _match(self._root, [domain, *path.split(\"/\")], [])\n"
+        "            if rv is None and merged != path:\n"
+        "                rv = _match(self._root, [domain, *merged.split(\"/\")], [])\n"
+        "                if rv is None or rv[0].merge_slashes is False:\n"
+        "                    raise NoMatch(have_match_for, websocket_mismatch)\n"
+        "                raise RequestPath(merged)\n"
+        "        except SlashRequired:\n"
+        "            raise RequestPath(f\"{merged}/\") from None\n"
+        "\n"
+        "        if False:\n")]},
+    {"name": "merged-pass-slash-redirect-targets-the-unmerged-path", "expect": "R12.6", "edits": [(T, _SECOND_PASS,
+        "            unmerged = path\n"
+        "            path = re.sub(\"/{2,}?\", \"/\", path)\n"
+        "            try:\n"
+        "                rv = _match(self._root, [domain, *path.split(\"/\")], [])\n"
+        "            except SlashRequired:\n"
+        "                raise RequestPath(f\"{unmerged}/\") from None\n")]},
 ]
 
 TWINS = [
@@ -81,4 +146,68 @@ TWINS = [
     {"name": "merged-slash-early-raise-style", "edits": [(T,
         "            if rv is None or rv[0].merge_slashes is False:\n                raise NoMatch(have_match_for, websocket_mismatch)\n            else:\n                raise RequestPath(f\"{path}\")",
         "            if rv is not None and rv[0].merge_slashes is not False:\n                raise RequestPath(f\"{path}\")\n            raise NoMatch(have_match_for, websocket_mismatch)")]},
+    {"name": "slash-loop-admission-in-a-flag-local", "edits": [(T, _SLASH_LOOP,
+        "                        admits = websocket == rule.websocket and (\n"
+        "                            rule.methods is None or method in rule.methods\n"
+        "                        )\n"
+        "                        if admits and rule.strict_slashes:\n"
+        "                            raise SlashRequired()\n"
+        "                        if admits:\n"
+        "                            return rule, values\n"
+        "                        if (\n"
+        "                            not rule.strict_slashes\n"
+        "                            and rule.methods is not None\n"
+        "                            and method not in rule.methods\n"
+        "                        ):\n"
+        "                            have_match_for.update(rule.methods)\n")]},
+    {"name": "slash-loop-methods-through-an-alias-and-de-morgan", "edits": [(T, _ADMIT_IF,
+        "                        allowed = rule.methods\n"
+        "                        if not (rule.websocket != websocket or (\n"
+        "                            allowed is not None and method not in allowed\n"
+        "                        )):\n")]},
+    {"name": "slash-loop-admission-in-a-predicate-helper", "edits": [
+        (T, _DEF_MATCH,
+        "        def _admits(r: Rule) -> bool:\n"
+        "            return websocket == r.websocket and (\n"
+        "                r.methods is None or method in r.methods\n"
+        "            )\n\n" + _DEF_MATCH),
+        (T, _ADMIT_IF, "                        if _admits(rule):\n"),
+    ]},
+    {"name": "walk-wrapped-in-a-non-catching-helper-and-parts-in-a-local", "edits": [
+        (T, _FIRST_PASS,
+        "        def _walk(p: str) -> tuple[Rule, list[str]] | None:\n"
+        "            parts = [domain, *p.split(\"/\")]\n"
+        "            return _match(self._root, parts, [])\n"
+        "\n"
+        "        try:\n"
+        "            rv = _walk(path)\n"
+        "        except SlashRequired:\n"
+        "            raise RequestPath(f\"{path}/\") from None\n"
+        "\n"
+        "        if self.merge_slashes and rv is None:\n"),
+        (T, _SECOND_PASS,
+        "            path = re.sub(\"/{2,}?\", \"/\", path)\n"
+        "            try:\n"
+        "                rv = _walk(path)\n"
+        "            except SlashRequired:\n"
+        "                target = path + \"/\"\n"
+        "                raise RequestPath(target) from None\n"),
+    ]},
+    {"name": "both-passes-through-one-catching-helper-walrus-result", "edits": [
+        (T, _FIRST_PASS,
+        "        def _try_path(candidate: str) -> tuple[Rule, list[str]] | None:\n"
+        "            try:\n"
+        "                return _match(self._root, [domain, *candidate.split(\"/\")], [])\n"
+        "            except SlashRequired:\n"
+        "                raise RequestPath(f\"{candidate}/\") from None\n"
+        "\n"
+        "        rv = _try_path(path)\n"
+        "\n"
+        "        if self.merge_slashes and rv is None:\n"),
+        (T, _SECOND_PASS + "            if rv is None or rv[0].merge_slashes is False:\n                raise NoMatch(have_match_for, websocket_mismatch)\n            else:\n                raise RequestPath(f\"{path}\")",
+        "            path = re.sub(\"/{2,}?\", \"/\", path)\n"
+        "            if (again := _try_path(path)) and again[0].merge_slashes is not False:\n"
+        "                raise RequestPath(path)\n"
+        "            raise NoMatch(have_match_for, websocket_mismatch)"),
+    ]},
 ]
